@@ -4,7 +4,10 @@ is materialised in a scratch BBS environment and pushed through every read entry
 the bbs wrappers; allow / deny / mask must equal the extracted model and the specification. A sample of rows that holds every
 (deciding clause x administers x named moderator) class is run again on every degenerate board content (no article at all,
 nothing pinned, pinned only, both; files / counters there or not): the verdict of an entry point — read from the error value,
-never from an empty payload — must be the rule's on every content; and the listings on empty / singleton candidate lists."""
+never from an empty payload — must be the rule's on every content; and the listings on empty / singleton candidate lists. The two class listings (ptt / bbs LoadClassBoards,
+LoadFullClassBoards) run on class trees planted into the scratch environment (root and nested class; children: the row's board, unrestricted /
+hidden / level / over-18 class, link, ordinary board, vacated slot, the fixture's classes; chain resolved by the code or planted, both sort
+orders): they must return, with exactly the children the caller may list, in sibling order, each with its title."""
 import os, re, sys
 from concurrent.futures import ThreadPoolExecutor
 sys.path.insert(0, os.path.join(os.path.dirname(os.path.abspath(__file__)), "..", "lib"))
@@ -24,7 +27,8 @@ ARTICLE_EPS = ["ptt.IsBoardValidUser", "ptt.LoadGeneralArticles", "ptt.LoadBotto
 LISTING_EPS = ["ptt.LoadGeneralBoards", "ptt.LoadAutoCompleteBoards", "ptt.LoadBoardsByBids", "ptt.LoadHotBoards"]
 BBS_EPS = ["bbs.IsBoardValidUser", "bbs.LoadGeneralArticles", "bbs.LoadBottomArticles", "bbs.GetArticle"]
 MODELLED = {"IsBoardValidUser", "LoadGeneralArticles", "LoadBottomArticles", "FindArticleStartIdx", "ReadPost", "ReadPostTemplate",
-            "LoadGeneralBoards", "LoadAutoCompleteBoards", "LoadBoardsByBids", "LoadHotBoards", "LoadBoardSummary"}
+            "LoadGeneralBoards", "LoadAutoCompleteBoards", "LoadBoardsByBids", "LoadHotBoards", "LoadBoardSummary",
+            "LoadClassBoards", "LoadFullClassBoards"}
 # reachable from exported ptt functions but not read entry points of this property; each with the reason
 ELSEWHERE = {
     "NewPost": "write path (C08): starts with the same read guard, returns the new index entry",
@@ -33,8 +37,6 @@ ELSEWHERE = {
     "CrossPost": "write path (C08): read guard on the source board",
     "Recommend": "write path (C08/C10): read guard first",
     "NewBoard": "board creation (C12): returns the summary of the board just created by a board administrator",
-    "LoadClassBoards": "class listing: filter `state != INVALID || groupOp` as in the modelled listings; not among the property's observation points (reported as unmodelled; only the class without children is probed, op 6)",
-    "LoadFullClassBoards": "class listing: same filter; not among the property's observation points (reported as unmodelled)",
     "LoadGeneralArticlesSameCreateTime": "exported helper without a caller argument: probed by op 4 (known finding)",
     "DeleteArticles": "write path: moderator/owner checks of its own",
 }
@@ -184,6 +186,58 @@ def reachable_entry_points(repo):
                 reach.add(n)
                 changed = True
     return sorted(n for n in reach if n[0].isupper())
+
+
+# ---------------------------------------------------------------- class listings (op 7)
+# kinds of children the driver plants under the class (go/impl/cmd/implrun/c07class.go)
+K_ROW, K_VISIBLE, K_HIDDEN, K_LEVEL, K_OVER18, K_NONCLASS, K_VACATED, K_FIXTURE, K_LINK = range(9)
+KIND_NAMES = {K_ROW: "the row's board", K_VISIBLE: "unrestricted class", K_HIDDEN: "hidden class (restricted mask)", K_LEVEL: "class with a required level",
+              K_OVER18: "over-18 class", K_NONCLASS: "ordinary board (not a class)", K_VACATED: "vacated slot", K_FIXTURE: "fixture class as it is", K_LINK: "symbolic link"}
+CLASS_EPS = ["ptt.LoadClassBoards", "bbs.LoadClassBoards", "ptt.LoadFullClassBoards", "bbs.LoadFullClassBoards"]
+ROW_BID = 10
+CLASS_BITS = B["GROUPBOARD"] | B["SYMBOLIC"]
+
+
+def abs_row(ul, o18, inbm, fr, nbm, ba, bl):
+    """the 16 facts of a caller and a board, from the words the code sees (written from the property text)"""
+    return {"sysop": int(bool(ul & P["SYSOP"])), "police": int(bool(ul & P["POLICE"])), "policeman": int(bool(ul & P["POLICE_MAN"])),
+            "basic": int(bool(ul & P["BASIC"])), "verified": int(bool(ul & P["LOGINOK"])), "inbm": int(inbm), "friend": int(fr), "uover18": int(o18),
+            "haslevel": int(bool(ul & bl)), "permboard": int(bool(ul & P["BOARD"])), "namedbm": int(nbm),
+            "hidden": int(bool(ba & B["HIDE"])), "postmask": int(bool(ba & B["POSTMASK"])), "bover18": int(bool(ba & B["OVER18"])),
+            "level0": int(bl == 0), "levelbm": int(bool(bl & P["BM"]))}
+
+
+def returned_attr(r, ba):
+    """building a listing entry forces the restricted mask onto a hidden board the caller sees only as a board (newBoardStat)"""
+    privileged = r["sysop"] or ((r["police"] or r["policeman"]) and r["levelbm"]) or (r["basic"] and r["verified"] and r["inbm"])
+    if r["hidden"] and not r["postmask"] and not privileged and not r["friend"]:
+        return ba | B["POSTMASK"]
+    return ba
+
+
+def kind_header(kind, bid, ba, bl, lvl, fixture):
+    """(named, attr, level) of a planted child"""
+    if kind == K_ROW:
+        return (True, ba, bl)
+    if kind == K_FIXTURE:
+        return (True,) + fixture[bid]
+    return {K_VISIBLE: (True, B["GROUPBOARD"], 0), K_HIDDEN: (True, B["GROUPBOARD"] | B["HIDE"] | B["POSTMASK"], 0), K_LEVEL: (True, B["GROUPBOARD"], lvl),
+            K_OVER18: (True, B["GROUPBOARD"] | B["OVER18"], 0), K_NONCLASS: (True, 0, 0), K_VACATED: (False, B["GROUPBOARD"], 0), K_LINK: (True, B["SYMBOLIC"], 0)}[kind]
+
+
+def parse_class_listings(f):
+    """status, then four listings (code, n, (bid, title, attr) x n), then the stored sibling chain (n, bids)"""
+    pos, lists = 1, []
+    for _ in range(4):
+        code, n = int(f[pos]), int(f[pos + 1])
+        ent = [(int(f[pos + 2 + 3 * k]), int(f[pos + 3 + 3 * k]), int(f[pos + 4 + 3 * k])) for k in range(n)]
+        lists.append((code, ent))
+        pos += 2 + 3 * n
+    n = int(f[pos])
+    chain = [int(x) for x in f[pos + 1:pos + 1 + n]]
+    if pos + 1 + n != len(f):
+        raise ValueError("trailing tokens")
+    return lists, chain
 
 
 def main():
@@ -385,6 +439,154 @@ def main():
             c.violation("listing-degenerate:ptt.LoadClassBoards", "ptt.LoadClassBoards of a class without children: code %s (0 nothing listed, 7 error, 8 panic), %s entries; row %s" % (f[13], f[15], line),
                         {"cases": [line], "got": o, "expected": "... 0 -1 0"})
 
+
+    # ---------------------------------------------------------------- the class listings on non-empty classes
+    # The class tree of the scratch environment: the fixture's class root (bid 1) or its nested class (bid 5) with planted
+    # children — the row's board (as a class / link), an unrestricted class, a hidden class the caller is no friend of, a class
+    # with a required level, an over-18 class, a symbolic link, an ordinary board, a vacated slot, the fixture's own classes —
+    # chained either by the code's resolver (mode 0) or the way the C daemons sharing the segment leave the chain (mode 1,
+    # any order), both sort orders, through ptt.LoadClassBoards / LoadFullClassBoards and their bbs wrappers.
+    fx = vf.run_impl(impl, "C07", ["8"])[0].split()
+    nb = int(fx[1]) if fx[:1] == ["0"] and len(fx) > 1 else 0
+    fixture_hdr = {}
+    for k in range(nb):
+        bid, named, attr, level, titled = (int(x) for x in fx[2 + 5 * k:7 + 5 * k])
+        fixture_hdr[bid] = (bool(named), attr, level)
+    sorted_bids = [[int(x) for x in fx[2 + 5 * nb + s_ * nb:2 + 5 * nb + (s_ + 1) * nb]] for s_ in (0, 1)]
+    fixture_classes = {bid: (a, l) for bid, (n, a, l) in fixture_hdr.items() if n and a & CLASS_BITS}
+    fixture_ok = nb >= 12 and len(fx) == 2 + 7 * nb and set(fixture_classes) == {2, 5} and fixture_hdr[ROW_BID][0] and all(sorted(sb) == list(range(1, nb + 1)) for sb in sorted_bids)
+    if not fixture_ok:
+        c.broken.append({"kind": "correspondence", "where": "class listings", "theorem": "the fixture no longer has the class tree the class-listing cases are planted on (classes 2 and 5 under root 1, 12 boards)",
+                         "examples": [{"case": "8", "impl": " ".join(fx)[:400]}], "log": ""})
+    l7, meta7 = [], []
+
+    def class_case(r, mode, cls, sort, rowgroup=True, kinds=None, fixed=None):
+        tail, ba = materialise(r, rng, group=rowgroup)
+        ul, bl = int(tail.split("|")[0].split()[0]), int(tail.split("|")[1].split()[1])
+        pool = [b for b in range(2, nb + 1) if b not in (cls, ROW_BID)]
+        rng.shuffle(pool)
+        if kinds is None:
+            kinds = [K_VISIBLE, K_HIDDEN, K_LEVEL, K_OVER18, K_NONCLASS, K_VACATED, K_LINK]
+            if rng.random() < 0.3:
+                kinds = rng.sample(kinds, rng.randrange(0, 5))
+        chain = [(ROW_BID, K_ROW)]
+        for fb in sorted(fixture_classes):
+            if fb in pool and (fixed if fixed is not None else rng.random() < 0.5):
+                chain.append((fb, K_FIXTURE))
+                pool.remove(fb)
+        for kd in kinds:
+            chain.append((pool.pop(), kd))
+        own = [b_ for b_ in FREE_PERM + [P["BM"], P["BOARD"], P["BASIC"], P["LOGINOK"]] if b_ & ul]
+        lvl = rng.choice([rng.choice(FREE_PERM), P["SYSOP"], P["BM"] | rng.choice(FREE_PERM), rng.choice(own) if own else P["POST"], P["LOGINOK"]])
+        if mode == 1:
+            rng.shuffle(chain)
+        else:
+            eff = 1 if cls == 1 else sort
+            chain.sort(key=lambda ch: sorted_bids[eff].index(ch[0]))
+        line = "7 %d %d %d|%s|%d|%s|%s" % (mode, cls, sort, tail, lvl, " ".join("%d %d" % ch for ch in chain),
+                                          " ".join("%d %d %d" % ((b_,) + fixture_classes[b_]) for b_ in sorted(fixture_classes)))
+        l7.append(line)
+        meta7.append((r, ul, int(tail.split()[1]), ba, bl, lvl, mode, cls, sort, chain))
+
+    def class_reference(meta):
+        """what the four listings must answer, from the property text: the children (all boards, for the full listing) that are
+        named classes / links and that the rule allows, or the caller administers boards, or is a named moderator of — in
+        sibling (board number) order, each with its title. pttbbs bounds one class listing by ChildCount + 5 entries."""
+        r, ul, o18, ba, bl, lvl, mode, cls, sort, chain = meta
+        hdr = {bid: h + (None,) for bid, h in fixture_hdr.items()}
+        for bid, kd in chain:
+            hdr[bid] = kind_header(kd, bid, ba, bl, lvl, fixture_classes) + (kd,)
+
+        def facts(bid):
+            named, attr, level, kd = hdr[bid]
+            return r if kd == K_ROW else abs_row(ul, o18, False, False, False, attr, level)
+
+        def allowed(bid):
+            named, attr, level, kd = hdr[bid]
+            return bool(named and attr & CLASS_BITS and spec_may_list(facts(bid)))
+
+        def entry(bid):
+            return (bid, 1, returned_attr(facts(bid), hdr[bid][1]))
+        stored = [b_ for b_, _ in chain] if mode == 1 else [b_ for b_, _ in chain if hdr[b_][0]]
+        cap = (len(chain) if mode == 1 else 0) + 5
+        return [entry(b_) for b_ in stored if allowed(b_)][:cap], [entry(b_) for b_ in sorted(hdr) if allowed(b_)], stored, allowed
+
+    def fmt_listing(ent):
+        return " ".join(["1", str(len(ent))] + ["%d %d %d" % e for e in ent])
+
+    if fixture_ok:
+        plain = {f_: 0 for f_ in FIELDS}
+        plain.update(basic=1, verified=1, level0=1)
+        sysop = dict(plain, sysop=1)
+        for r_ in (plain, sysop):                      # the fixture's own tree first: root with its two classes, then the nested class
+            class_case(r_, 0, 1, 0, kinds=[], fixed=True)
+            class_case(r_, 0, 5, 0, kinds=[K_VISIBLE, K_HIDDEN], fixed=True)
+        combos = [(m_, c_, s_) for m_ in (0, 1) for c_ in (1, 5) for s_ in (0, 1)]
+        all_combos = set(k for ks in by_class.values() for k in ks[:(12 if thorough else 4)])
+        for n_, k in enumerate(picked):
+            r_ = base_rows[k][0]
+            for (m_, c_, s_) in (combos if k in all_combos else [combos[n_ % 8]]):
+                class_case(r_, m_, c_, s_, rowgroup=rng.random() < 0.9)
+    o7 = run_impl_par(l7)
+    c.count(len(l7) * 4, "class listings: rows x class trees x 4 entry points")
+    if model and l7:
+        m7 = vf.run_model(model, l7)
+        vf.correspond(c, "class listings on planted class trees", l7, o7, m7)
+    crashes = {}
+    class_cov = {}
+    for k7, (meta, line, o) in enumerate(zip(meta7, l7, o7)):
+        r, ul, o18, ba, bl, lvl, mode, cls, sort, chain = meta
+        f = o.split()
+        want_cls, want_full, stored, allowed = class_reference(meta)
+        expected = " ".join(["0", fmt_listing(want_cls), fmt_listing(want_cls), fmt_listing(want_full), fmt_listing(want_full), str(len(stored))] + [str(b_) for b_ in stored])
+        tree = "class %d (%s), chain %s by %s, sort %d: %s" % (cls, "root" if cls == 1 else "nested", "resolved by the code" if mode == 0 else "as planted", "class" if cls == 1 or sort == 1 else "name", sort,
+                                                           ", ".join("%d=%s" % (b_, KIND_NAMES[kd]) for b_, kd in chain))
+        rep = {"cases": [line], "expected": expected, "got": o, "tree": tree,
+               "legend": "case: 7 <chain: 0 resolved by the code, 1 planted> <class> <sort>|<user level> <over18> <in moderator cache> <friend> <named moderator>|<attr> <level of the row's board>|<level of the class with a required level>|(<bid> <kind>)* in sibling order|fixture classes (<bid> <attr> <level>)*; "
+                         "answer: status, then for " + ", ".join(CLASS_EPS) + ": code (1 answered, 7 error, 8 panic), n, (bid, title 1 present / 2 withheld, attr) x n; then the sibling chain the segment holds"}
+        c.nontrivial(("class", mode, cls, sort, tuple(kd for _, kd in chain)) + tuple(r[k_] for k_ in FIELDS))
+        cov_key = "class listing %s / %s" % (reason_class(r)[0], "row board is a class" if ba & CLASS_BITS else "row board is no class")
+        class_cov[cov_key] = class_cov.get(cov_key, 0) + 1
+        if len(want_cls) == (len(chain) if mode == 1 else 0) + 5:
+            class_cov["class listing filling the bound of ChildCount + 5 entries"] = class_cov.get("class listing filling the bound of ChildCount + 5 entries", 0) + 1
+        try:
+            if f[0] != "0":
+                raise ValueError("status")
+            lists, chain_got = parse_class_listings(f)
+        except (ValueError, IndexError):
+            c.violation("entry-point-crash", "a class listing crashed / stalled on %s; row %s: %s" % (tree, line, o), rep)
+            continue
+        if chain_got != stored:
+            c.broken.append({"kind": "correspondence", "where": "class listings", "theorem": "the sibling chain the segment holds is the planted one / the children in sort order",
+                             "examples": [{"case": line, "impl": o, "check": expected}], "log": ""})
+        for name, (code, ent), want in zip(CLASS_EPS, lists, [want_cls, want_cls, want_full, want_full]):
+            got_bids, want_bids = [e[0] for e in ent], [e[0] for e in want]
+            if code == 8:
+                crashes.setdefault(name, []).append((k7, line, o, tree, rep))
+            elif code != 1:
+                c.violation("listing-error:" + name, "%s returned an error instead of a listing on %s; row %s" % (name, tree, line), rep)
+            elif any(e[1] == 1 and not allowed(e[0]) for e in ent):
+                bad = [e[0] for e in ent if e[1] == 1 and not allowed(e[0])]
+                c.violation("listing-class-leak:" + name, "%s lists board(s) %s with the title although the rule refuses the caller, who neither administers boards nor is a named moderator; %s; row %s" % (name, bad, tree, line), rep)
+            elif got_bids != want_bids:
+                missing, extra = [b_ for b_ in want_bids if b_ not in got_bids], [b_ for b_ in got_bids if b_ not in want_bids]
+                c.violation("listing-class:" + name, "%s answered boards %s where the children the caller may list are %s in sibling order (omitted %s, not to be listed %s%s); %s; row %s"
+                            % (name, got_bids, want_bids, missing, extra, "" if missing or extra else ", order differs", tree, line), rep)
+            elif any(e[1] != 1 for e in ent):
+                c.violation("listing-class-title:" + name, "%s lists board(s) %s without the title for a caller who may list them; %s; row %s" % (name, [e[0] for e in ent if e[1] != 1], tree, line), rep)
+    for name in CLASS_EPS:                           # one violation per function (the ptt one stands for its bbs wrapper); the example is the fixture's own tree
+        bad = crashes.get(name)
+        if not bad:
+            continue
+        k7, line, o, tree, rep = bad[0]
+        c.violation("listing-crash:" + name.split(".")[1],
+                    "%s panics instead of omitting the children the caller may not see (or that are no classes): %d of the %d class trees tried, e.g. %s; row %s"
+                    % (name, len(bad), len(l7), tree, line), dict(rep, crashing_cases=len(bad), cases_tried=len(l7)))
+    c.cov["distribution"].update(class_cov)
+    if l7:
+        k_s = next((k for k, m_ in enumerate(meta7) if m_[6] == 1 and len(m_[9]) >= 8 and not spec_may_list(m_[0])), 0)
+        c.sample({"row": l7[k_s], "impl": o7[k_s], "legend": "class listing: status | ptt.LoadClassBoards, bbs.LoadClassBoards, ptt.LoadFullClassBoards, bbs.LoadFullClassBoards (code n (bid title attr)*) | stored chain"})
+
     # ---------------------------------------------------------------- inconsistent (bid, name) pair and the caller-less helper
     probe = [t for (r, t, _, g) in table[:n_consistent] if not g]
     probe = rng.sample(probe, 8000 if thorough else 2000)
@@ -416,16 +618,23 @@ def main():
     c.cov["entry_points_unmodelled"] = {n: ELSEWHERE[n] for n in reach if n in ELSEWHERE}
     c.cov["exhaustive_parts"] = ["all %d consistent rows of the 2^16 decision table (%d inconsistent rows pruned: level = 0 with a level bit), each through 11 ptt entry points, "
                                  "5 bbs wrappers, boardPermStat and groupOp" % (n_consistent, (1 << 16) - n_consistent),
-                                 "all 32 board contents for every sampled row (the content domain of op 5 is enumerated completely)"]
+                                 "all 32 board contents for every sampled row (the content domain of op 5 is enumerated completely)",
+                                 "class listings: all 8 (chain mode x class x sort order) combinations for the first rows of every reason class"]
     c.finish(rule="every consistent row of the 16-input table, irrelevant permission/attribute bits drawn from PRNG(seed) (thorough: three draws per row); "
                   "plus group/symbolic variants of sampled rows; plus sampled rows through the inconsistent-pair and caller-less probes; "
                   "plus, for a PRNG(seed) sample of rows holding at least 25 rows of every (deciding clause x administers x named moderator) class, "
                   "the ten article entry points on all 32 board contents (index / pinned index / article file / template present or not, pinned "
                   "counter loaded or not) and the four listings on an empty and on a singleton candidate list (thorough: every row on the "
-                  "four index/pinned contents); a case is non-trivial if it is a distinct (row, group flag) / (content, row) / (listing variant, row)",
+                  "four index/pinned contents); plus, for every sampled row, the four class listings on a class tree drawn from PRNG(seed) "
+                  "(chain resolved by the code / planted in a random order, class root / nested class, sort by name / class — all 8 combinations for 4 rows "
+                  "of every class, one in rotation for the others; children: a random subset of the 7 planted kinds and the fixture's classes; the row's board a class or link in 9 of 10); "
+                  "a case is non-trivial if it is a distinct (row, group flag) / (content, row) / (listing variant, row) / (class tree shape, row)",
              assumptions=["the caller's uid is a valid logged-in uid (what every API handler derives from the token); uid 0 / -1 are not rows of the table",
                           "friend list and moderator cache are planted directly (file `visable` reloaded by the code itself; BMCache written into the segment) — how they are built is C12",
                           "listing paging (nBoards + 1, next cursor) is C11; here every listing is requested unpaged",
+                          "class listings: the class tree is planted into the board cache (Gid / FirstChild / Next / ChildCount, attributes and levels of fixture boards); "
+                          "a chain is acyclic and holds each board once; one class listing is bounded by ChildCount + 5 entries as in pttbbs (go's resolver leaves ChildCount at 0: five entries) — "
+                          "the reference applies that bound, listing size is C11's; children that are neither class nor link are not part of a class listing in go-pttbbs (its own filter, like group boards in the general listing)",
                           "board content is varied on the target board by removing / restoring its .DIR, .DIR.bottom, article file and post template; the "
                           "counters of the segment are those the code's own loaders (SetBTotal / SetBottomTotal) compute for that content, or 0 for 'not loaded yet'"])
 
